@@ -176,6 +176,9 @@ def run_concrete(workdir, conc, clean=True):
         (os.POSIX_SPAWN_OPEN, 1, "stdout", os.O_WRONLY | os.O_CREAT | os.O_TRUNC | os.O_APPEND, 0o644),
         (os.POSIX_SPAWN_OPEN, 2, "stderr", os.O_WRONLY | os.O_CREAT | os.O_TRUNC | os.O_APPEND, 0o644),
     ]
+    if conc.get("merge_output"):
+        # stdout and stderr appended to one file, in program order (as on a terminal)
+        fa[2] = (os.POSIX_SPAWN_OPEN, 2, "stdout", os.O_WRONLY | os.O_CREAT | os.O_APPEND, 0o644)
     pid = os.posix_spawn(argv[0], argv, env, file_actions=fa)
     try:
         resource.prlimit(pid, resource.RLIMIT_CPU, (CPU_LIMIT, CPU_LIMIT + 1))
